@@ -117,7 +117,7 @@ class error_999_visitor(pyx12.error_visitor.error_visitor):
                     if elem.ele_pos in iea_ele_err_map:
                         err_codes.append(iea_ele_err_map[elem.ele_pos])
         # return unique codes
-        return list(set(err_codes))
+        return sorted(set(err_codes))
 
     def visit_root_post(self, errh):
         """
@@ -199,7 +199,7 @@ class error_999_visitor(pyx12.error_visitor.error_visitor):
                     else:
                         err_codes.append('1')
         # return unique codes
-        ret = list(set(err_codes))
+        ret = sorted(set(err_codes))
         ret.sort()
         return ret
 
@@ -273,7 +273,7 @@ class error_999_visitor(pyx12.error_visitor.error_visitor):
                     if elem.ele_pos in se_ele_err_map:
                         err_codes.append(se_ele_err_map[elem.ele_pos])
         # return unique codes
-        ret = list(set(err_codes))
+        ret = sorted(set(err_codes))
         ret.sort()
         return ret
 
@@ -312,7 +312,7 @@ class error_999_visitor(pyx12.error_visitor.error_visitor):
             if '8' not in errors:
                 errors.append('8')
             errors = [x for x in errors if x != 'SEG1']
-        for err_cde in list(set(errors)):
+        for err_cde in sorted(set(errors)):
             if err_cde in valid_IK3_codes:  # unique codes
                 seg_data = pyx12.segment.Segment(seg_str, '~', '*', ':')
                 seg_data.set('IK304', err_cde)
